@@ -23,7 +23,7 @@ MAXB = 16 * 1024 * 1024
 I64MIN, I64MAX = -(1 << 63), (1 << 63) - 1
 U64MAX = (1 << 64) - 1
 
-SHAPES = ["literal", "concat", "slice", "repeat", "zero", "concat3"]
+SHAPES = ["literal", "concat", "slice", "repeat", "zero", "concat3", "prefix", "suffix", "nested"]
 
 
 def build_replay():
@@ -375,7 +375,10 @@ INTS = [0, 1, -1, 2, 3, 4, 7, 8, 9, 63, 64, 65, 255, 256, (1 << 31) - 1, 1 << 31
         1 << 61, (1 << 63) - 1, 1 << 63, U64MAX, 1 << 64, 1 << 70, -(1 << 31), -(1 << 31) - 1, -(1 << 32), -(1 << 63), -(1 << 63) - 1, -(1 << 64)]
 SMALL = [0, 1, 2, 3, 4, 5, 7, 8, 9, 15, 16, 17]
 BINS = [b"", b"\x00", b"\xff", b"\x01\x02", b"\xff\x00", b"\x00\x00\x00\x00", bytes(range(1, 9)), bytes(range(1, 9)) + b"\xff", bytes(9),
-        b"\xf0" + bytes(7) + b"\x05", b"\x80" + bytes(7), b"\xff" * 8, bytes(range(1, 17)), b"\xab\xab\xab\xab", b"\x01\x02\x01\x02\x01\x02", b"\x7f\xff\xff\xff\xff\xff\xff\xff" * 2]
+        b"\xf0" + bytes(7) + b"\x05", b"\x80" + bytes(7), b"\xff" * 8, bytes(range(1, 17)), b"\xab\xab\xab\xab", b"\x01\x02\x01\x02\x01\x02", b"\x7f\xff\xff\xff\xff\xff\xff\xff" * 2,
+        # packed lanes at the extremes: i64::MIN x2 / x3, i64::MAX x2, i32::MIN x2, mixed
+        (bytes(7) + b"\x80") * 2, (bytes(7) + b"\x80") * 3, (b"\xff" * 7 + b"\x7f") * 2, (bytes(3) + b"\x80") * 2, (b"\xff" * 3 + b"\x7f") * 2,
+        bytes(7) + b"\x80" + b"\xff" * 7 + b"\x7f"]
 
 # name -> (model, [parameter kinds]); kinds: 'b' binary, 'i' any int, 's' small int, 'w' width
 BUILTINS = {
